@@ -33,7 +33,7 @@ def directions(ex):
     return IN, OUT
 
 
-def run_add(max_depth=3):
+def run_add(max_depth=7):
     ex = e2.executor('anemo', CONNECTION_MODELS, max_depth=max_depth)
     fn = find_method(ex.prog, 'ActivePeersInner', 'add')
     p = Path()
